@@ -297,6 +297,14 @@ def process_template(path, crate, repo, gen=None, depth=0):
             log = X.RuleLog()
             lost = []
             lkey = f"{sc.module}::{sc.opts.get('as') or sc.name}"
+            # R3 (second half): the sidecar signature was written against the parameter and result TYPES the function had when the
+            # sidecar was recorded; a changed type must not be overridden silently by the sidecar's
+            sig_now = re.sub(r'\s+', ' ', X.join(X.strip_attrs(list(fn['sig'])))).strip()
+            sig_now = re.sub(r'^(pub(\([a-z]+\))? )?', '', sig_now)
+            if os.environ.get('VERIF_RECORD_LOCALS') == '1':
+                RECORDED_LOCALS['sig ' + lkey] = sig_now
+            elif LOCALS.get('sig ' + lkey) is not None and LOCALS['sig ' + lkey] != sig_now:
+                raise ExtractionError(f"signature of `{sc.name}` changed: the sidecar was written for `{LOCALS['sig ' + lkey][:200]}`, /repo has `{sig_now[:200]}`")
             if os.environ.get('VERIF_RECORD_LOCALS') == '1':
                 RECORDED_LOCALS[lkey] = X.binders(X.strip_attrs(list(fn['body'])))
                 woven = X.weave(fn, sc, log, lost, gen.unit_rewrites)
